@@ -244,12 +244,16 @@ def reference_function(rel, qual):
 def differences(fn, ref_fn, inline=None):
     """List of (what, found, reference) where the folds of `fn` and `ref_fn` differ: returned value, visible final values,
     objects written through parameters, refusals (both ways), ordered effectful calls and pure calls with their conditions."""
-    cur = pyval.fold_function(fn, inline=inline, exact=True)
-    ref = pyval.fold_function(ref_fn, exact=True)
     diffs = []
     sa, sb = _signature(fn), _signature(ref_fn)
+    bind = None
     if sa != sb:
-        diffs.append(("signature (parameter names, kinds or default values)", sa, sb))
+        # a signature that only gained parameters with defaults is judged at those defaults
+        bind = _added_defaults(fn, ref_fn)
+        if bind is None:
+            diffs.append(("signature (parameter names, kinds or default values)", sa, sb))
+    cur = pyval.fold_function(fn, inline=inline, exact=True, bind=bind)
+    ref = pyval.fold_function(ref_fn, exact=True)
     if not pyval.same(cur.ret, ref.ret):
         diffs.append(("returned value", cur.ret, ref.ret))
     for k in sorted(_visible_keys(cur, fn) | _visible_keys(ref, ref_fn)):
@@ -324,6 +328,38 @@ def _signature(fn):
     return ", ".join(out)
 
 
+def _added_defaults(fn, ref_fn):
+    """{new parameter: default node} when fn's signature is ref_fn's plus parameters that all have defaults (the
+    reference parameters keep their names, order and defaults); None otherwise."""
+    def table(f):
+        a = f.args
+        pos = a.posonlyargs + a.args
+        dfl = [None] * (len(pos) - len(a.defaults)) + list(a.defaults)
+        out = [(p.arg, "pos", d) for p, d in zip(pos, dfl)]
+        out += [(p.arg, "kw", d) for p, d in zip(a.kwonlyargs, a.kw_defaults)]
+        return out, (a.vararg.arg if a.vararg else None), (a.kwarg.arg if a.kwarg else None)
+    (ta, va, ka), (tb, vb, kb) = table(fn), table(ref_fn)
+    if va != vb or ka != kb:
+        return None
+    names_b = [n for n, _, _ in tb]
+    kept = [(n, k, d) for n, k, d in ta if n in names_b]
+    if [n for n, _, _ in kept] != names_b:
+        return None
+    pv = pyval.PyVal(exact=True)
+    for (n, k, d), (n2, k2, d2) in zip(kept, tb):
+        if k != k2 or (d is None) != (d2 is None) or (d is not None and not pyval.same(pv.value(d, {}), pv.value(d2, {}))):
+            return None
+    added = [(n, k, d) for n, k, d in ta if n not in names_b]
+    if not added or any(d is None for _, _, d in added):
+        return None
+    # new positional parameters may only come after the reference ones
+    pos_a = [n for n, k, _ in ta if k == "pos"]
+    pos_b = [n for n, k, _ in tb if k == "pos"]
+    if pos_a[:len(pos_b)] != pos_b:
+        return None
+    return {n: d for n, _, d in added}
+
+
 def _visible_keys(res, fn):
     """Keys of the final environment that name something visible outside the call: attributes / items of `self`, of a
     parameter, or of a global (module, class, module-level table)."""
@@ -359,6 +395,76 @@ def _stored_params(res, fn):
             if "store(" in s or "store_in(" in s or "after_" in s or "loop(" in s:
                 out.add(p)
     return out
+
+
+_RENAMES = None
+
+
+def rename_map():
+    """{relpath: {reference qualname: current qualname}} for functions that disappeared under their reference name while
+    exactly one new function of the same module (same class) folds to the reference: a rename."""
+    global _RENAMES
+    if _RENAMES is not None:
+        return _RENAMES
+    _RENAMES = {}
+    try:
+        bodies = _bodies()
+    except AnalysisError:
+        return _RENAMES
+    pending = []
+    for rel, entry in bodies.items():
+        path = os.path.join(pf.REPO, rel)
+        if not os.path.exists(path):
+            continue
+        try:
+            tree = ast.parse(open(path).read())
+        except SyntaxError:
+            continue
+        cur = {}
+
+        def walk(node, prefix):
+            for child in ast.iter_child_nodes(node):
+                if isinstance(child, (ast.FunctionDef, ast.AsyncFunctionDef)):
+                    cur.setdefault(prefix + child.name, child)
+                elif isinstance(child, ast.ClassDef):
+                    walk(child, prefix + child.name + ".")
+                elif isinstance(child, (ast.If, ast.Try, ast.With, ast.For, ast.While)):
+                    walk(child, prefix)
+        walk(tree, "")
+        missing = [q for q in entry["bodies"] if q not in cur]
+        added = [q for q in cur if q not in entry["bodies"]]
+        if not missing or not added:
+            continue
+        pending.append((rel, entry, cur, missing, added))
+    # fixpoint: a renamed function that calls another renamed function matches once the callee's rename is known
+    progress = True
+    while progress:
+        progress = False
+        for rel, entry, cur, missing, added in pending:
+            for m in list(missing):
+                ref_fn = ast.parse(entry["bodies"][m]).body[0]
+                scope = m.rsplit(".", 1)[0] if "." in m else ""
+                cands = []
+                for a in added:
+                    if (a.rsplit(".", 1)[0] if "." in a else "") != scope:
+                        continue
+                    try:
+                        if not differences(cur[a], ref_fn, {}):
+                            cands.append(a)
+                    except Exception:
+                        pass
+                if len(cands) == 1:
+                    _RENAMES.setdefault(rel, {})[m] = cands[0]
+                    pyval.RENAMES[cands[0].split(".")[-1]] = m.split(".")[-1]
+                    missing.remove(m)
+                    added.remove(cands[0])
+                    progress = True
+    return _RENAMES
+
+
+def current_name(rel, qual):
+    """The name under which the reference function `qual` of `rel` exists on the current tree (itself unless renamed)."""
+    return rename_map().get(rel, {}).get(qual, qual)
 
 
 def ref_rule(prop):
@@ -402,7 +508,10 @@ def sem_align(mod):
     if not entry:
         return done
     known = set(entry["functions"])
-    for qual, fn in list(mod.functions.items()):
+    renames = rename_map().get(mod.relpath, {})
+    back = {v: k for k, v in renames.items()}
+    for cur_qual, fn in list(mod.functions.items()):
+        qual = back.get(cur_qual, cur_qual)
         if qual.count(".") > 1 or qual not in entry["bodies"]:
             continue
         parent = mod.parents.get(fn)
@@ -412,7 +521,8 @@ def sem_align(mod):
         if alpha.shape(fn)[0] == alpha.shape(ref_fn)[0]:
             continue
         if [a.arg for a in fn.args.posonlyargs + fn.args.args + fn.args.kwonlyargs] != \
-                [a.arg for a in ref_fn.args.posonlyargs + ref_fn.args.args + ref_fn.args.kwonlyargs]:
+                [a.arg for a in ref_fn.args.posonlyargs + ref_fn.args.args + ref_fn.args.kwonlyargs] \
+                and _added_defaults(fn, ref_fn) is None:
             continue
         try:
             if differences(fn, ref_fn, new_helpers(mod, qual, known)):
